@@ -171,6 +171,90 @@ impl Model {
     }
 }
 
+/// The sub-ontology below `root` with every descendant of `root` as a leaf: all of them are retained, with the original
+/// parent links between retained terms. Which records are kept is C14's to judge (taken from the sub-ontology itself);
+/// a kept record is linked to exactly the retained subset of its direct terms.
+fn sub_model(m: &Model, root: usize, sub: &Ontology) -> (Model, Vec<usize>) {
+    let mut retained: BTreeSet<usize> = BTreeSet::new();
+    retained.insert(root);
+    let mut stack = vec![root];
+    while let Some(x) = stack.pop() {
+        for &c in &m.children[x] {
+            if retained.insert(c) {
+                stack.push(c);
+            }
+        }
+    }
+    let nodes: Vec<usize> = retained.iter().copied().collect();
+    let pos = |x: usize| nodes.iter().position(|&y| y == x);
+    let n = nodes.len();
+    let mut parents = vec![BTreeSet::new(); n];
+    let mut children = vec![BTreeSet::new(); n];
+    for (i, &x) in nodes.iter().enumerate() {
+        for &p in &m.parents[x] {
+            if let Some(j) = pos(p) {
+                parents[i].insert(j);
+                children[j].insert(i);
+            }
+        }
+    }
+    // closure (nodes are in topological order: indices ascend along every edge)
+    let mut anc: Vec<BTreeSet<usize>> = vec![BTreeSet::new(); n];
+    for j in 0..n {
+        let mut s = BTreeSet::new();
+        for &p in &parents[j] {
+            s.insert(p);
+            s.extend(anc[p].iter().copied());
+        }
+        anc[j] = s;
+    }
+    let kept: [BTreeSet<u32>; 3] = [
+        sub.genes().map(|g| g.id().as_u32()).collect(),
+        sub.omim_diseases().map(|g| g.id().as_u32()).collect(),
+        sub.orpha_diseases().map(|g| g.id().as_u32()).collect(),
+    ];
+    let mut recs: [BTreeMap<u32, BTreeSet<usize>>; 3] = Default::default();
+    for k in 0..3 {
+        for r in &kept[k] {
+            let direct: BTreeSet<usize> = m.recs[k].get(r).map(|ds| ds.iter().filter_map(|&d| pos(d)).collect()).unwrap_or_default();
+            recs[k].insert(*r, direct);
+        }
+    }
+    (Model { n, ids: nodes.iter().map(|&x| m.ids[x]).collect(), parents, children, anc, recs, obs_linked: None }, nodes)
+}
+/// construction path sub_ontology: below HP:1 and below HP:118, every descendant as a leaf
+fn check_sub_ontologies(m: &Model, o: &Ontology, f: fn(&Model, &Ontology) -> Check) -> Check {
+    for root in [0usize, 1] {
+        if root >= m.n {
+            continue;
+        }
+        let rt = o.hpo(m.ids[root]).ok_or("root term missing")?;
+        let mut leaves = vec![rt];
+        let mut seen: BTreeSet<usize> = BTreeSet::new();
+        let mut stack = vec![root];
+        while let Some(x) = stack.pop() {
+            for &c in &m.children[x] {
+                if seen.insert(c) {
+                    stack.push(c);
+                    leaves.push(o.hpo(m.ids[c]).ok_or("term missing")?);
+                }
+            }
+        }
+        let sub = match panic::catch_unwind(panic::AssertUnwindSafe(|| o.sub_ontology(rt, leaves.clone()))) {
+            Ok(Ok(s)) => s,
+            // a refused or panicking sub_ontology call is C14's to report
+            _ => continue,
+        };
+        let (ms, _) = sub_model(m, root, &sub);
+        if sub.len() != ms.n {
+            // which terms are retained is C14's to judge
+            continue;
+        }
+        f(&ms, &sub).map_err(|e| format!("sub_ontology below {} with all its descendants as leaves: {e}", m.ids[root]))?;
+    }
+    Ok(())
+}
+
 fn node_order(n: usize, order: u8) -> Vec<usize> {
     let mut v: Vec<usize> = (0..n).collect();
     match order {
@@ -348,6 +432,7 @@ pub fn check_c01(c: &Case) -> Check {
         if let Ok(Ok(o2)) = load(&o.as_bytes()) {
             check_c01_on(&m, &o2).map_err(|e| format!("as_bytes -> from_bytes path: {e}"))?;
         }
+        check_sub_ontologies(&m, &o, check_c01_on)?;
         for version in [1u8, 2, 3] {
             for obsolete in [false, true] {
                 let enc = Enc { version, reverse: c.order & 1 == 1, flags: vec![(obsolete, 0); c.n], rename_term: None, rename_rec: None };
@@ -390,6 +475,7 @@ pub fn check_c02(c: &Case) -> Check {
         if let Ok(Ok(o2)) = load(&o.as_bytes()) {
             check_c02_on(&m, &o2).map_err(|e| format!("as_bytes -> from_bytes path: {e}"))?;
         }
+        check_sub_ontologies(&m, &o, check_c02_on)?;
         for version in [3u8, 2, 1] {
             let mut cv = c.clone();
             if version < 3 {
